@@ -216,7 +216,7 @@ func (q *Queue[T]) unsafeWaitWhileEmpty(ctx context.Context) error {
 	return nil
 }
 
-func (q *Queue[T]) waitForNew(ctx context.Context) error {
+func (q *Queue[T]) waitForNew(ctx context.Context, cursor ...*entry[T]) error {
 	q.mu.Lock()
 	defer q.mu.Unlock()
 
@@ -225,8 +225,15 @@ func (q *Queue[T]) waitForNew(ctx context.Context) error {
 	go func() { <-ctx.Done(); q.nupdates.Broadcast() }()
 	defer cancel()
 
+	// wait until the entry the caller has last seen (by default
+	// the current back of the queue) has a successor: an item
+	// added before this call, but after the caller inspected the
+	// queue, must not be waited for.
 	head := q.back
-	for head == q.back && q.back.link != q.front {
+	if len(cursor) > 0 {
+		head = cursor[0]
+	}
+	for head.link == nil {
 		if q.closed {
 			return ErrQueueClosed
 		}
@@ -260,11 +267,12 @@ func (q *Queue[T]) Close() error {
 //
 // Preconditions: The caller holds q.mu and q is not empty.
 func (q *Queue[T]) popFront() T {
+	// The removed entry becomes the new sentinel and stays linked to
+	// its successors, so that an iterator positioned on it (or on an
+	// older entry) continues with the items added later. When the
+	// queue empties, e is q.back, and front and back coincide again.
 	e := q.front.link
-	q.front.link = e.link
-	if e == q.back {
-		q.back = q.front
-	}
+	q.front = e
 
 	q.tracker.remove()
 	q.nupdates.Broadcast()
@@ -361,7 +369,8 @@ func (q *Queue[T]) Producer() fun.Producer[T] {
 		}
 
 		q.mu.Lock()
-		if next.link == q.front {
+		if next.link == next {
+			// a self-linked entry terminates the list
 			q.mu.Unlock()
 			return o, io.EOF
 		}
@@ -377,14 +386,12 @@ func (q *Queue[T]) Producer() fun.Producer[T] {
 
 			q.mu.Unlock()
 			verifYield("pubsub.Queue.Producer.unlocked")
-			if err := q.waitForNew(ctx); err != nil {
+			if err := q.waitForNew(ctx, next); err != nil {
 				return o, err
 			}
 
 			q.mu.Lock()
-			if next.link != q.front {
-				next = next.link
-			}
+			next = next.link
 			q.mu.Unlock()
 		}
 
